@@ -1,6 +1,7 @@
 package main
 
 import (
+	"encoding/json"
 	"flag"
 	"fmt"
 	"os"
@@ -29,6 +30,7 @@ type Options struct {
 	Workers            int
 	Dump               string
 	Only               string
+	GenLocals          bool
 }
 
 func main() {
@@ -44,6 +46,7 @@ func main() {
 	flag.IntVar(&o.Workers, "j", 16, "parallel solver processes")
 	flag.StringVar(&o.Dump, "dump", "", "dump SSA of a function (contract key)")
 	flag.StringVar(&o.Only, "only", "", "development: only solve obligations whose name contains this")
+	flag.BoolVar(&o.GenLocals, "genlocals", false, "write specs/locals.json (the named locals of every function under contract)")
 	flag.Parse()
 	o.Specs = filepath.Join(o.Verif, "specs")
 	if o.Timeout == 0 {
@@ -85,6 +88,26 @@ func run(o *Options) int {
 	ctx.specs = sp
 	if o.Verbose {
 		fmt.Printf("loaded %d packages, %d contracts in %.1fs\n", len(ctx.pkgs), len(sp.Funcs), time.Since(t0).Seconds())
+	}
+	localsFile := filepath.Join(o.Specs, "locals.json")
+	if o.GenLocals {
+		out := map[string][]localRef{}
+		for k, fc := range sp.Funcs {
+			if fc.Extern || fc.Iface {
+				continue
+			}
+			if fn := ctx.findFunc(k); fn != nil && fn.Blocks != nil {
+				_, ls := namedLocals(fn)
+				out[k] = ls
+			}
+		}
+		data, _ := json.MarshalIndent(out, "", " ")
+		os.WriteFile(localsFile, data, 0o644)
+		fmt.Printf("wrote %s (%d functions)\n", localsFile, len(out))
+		return 0
+	}
+	if data, err := os.ReadFile(localsFile); err == nil {
+		json.Unmarshal(data, &ctx.localsRef)
 	}
 	if o.Dump != "" {
 		fn := ctx.findFunc(o.Dump)
